@@ -1,4 +1,5 @@
 import PlasVerif.Driver.C01
+import PlasVerif.Driver.C04
 import PlasVerif.Driver.C19
 /-!
 Line-protocol driver: one request per line `<property> <stream> <payload…>`, one
@@ -11,6 +12,7 @@ open PlasVerif.Driver
 def dispatch (line : String) : String :=
   match (line.splitOn " ").filter (· ≠ "") with
   | "C01" :: r => C01.handle r
+  | "C04" :: r => C04.handle r
   | "C19" :: r => C19.handle r
   | _ => "bad-op"
 
